@@ -112,7 +112,9 @@ StepProvider(e) ==
   LET ok == S.sy.pc = e.which /\ S.sy.cur = e.s /\ S.sy.cur.h = e.h
       pre == [S EXCEPT !.sy.pc = e.which, !.sy.cur = e.s]
       cs == SettleSet(XProvider(pre, e.ans))
-      g1 == IF e.ans = "fail" THEN [G EXCEPT !.rej.snap = @ \cup {e.s}] ELSE G
+      \* a provider failure ends the attempt: whatever is offered next is not the retried queue
+      g1 == IF e.ans = "ok" THEN G
+            ELSE [G EXCEPT !.rej.snap = IF e.ans = "fail" THEN @ \cup {e.s} ELSE @, !.retry = FALSE]
   IN /\ S' = NextS(cs, e.post)
      /\ drift' = drift \cup DriftIf(cs, e.post, "Provider: post-state differs")
                        \cup FailIf(~ok, D("Provider: unexpected call"))
@@ -128,7 +130,8 @@ StepOffer(e) ==
       cs == SettleSet(XOffer(pre, e.v))
       \* nothing was applied or asked to be refetched yet in a sync that is not a retry
       \* (also keeps the ghost sane after a step the driver did not intend, e.g. a timeout)
-      gr == IF G.retry THEN G ELSE [G EXCEPT !.must = {}, !.used = {}]
+      \* (a retry keeps the queue only if it really is the same snapshot that is offered again)
+      gr == IF G.retry /\ e.s = G.cur THEN G ELSE [G EXCEPT !.must = {}, !.used = {}]
       g0 == [gr EXCEPT !.applied = {}, !.verified = FALSE, !.cur = e.s, !.retry = FALSE]
       g1 == CASE e.v = "reject"        -> [g0 EXCEPT !.rej.snap = @ \cup {e.s}]
               [] e.v = "reject_format" -> [g0 EXCEPT !.rej.fmt = @ \cup {e.s.f}]
@@ -262,7 +265,7 @@ Applier(e) == e.ev \in {"Provider", "Offer", "Apply", "Info", "End"}
 Settle(g) == [g EXCEPT !.settled = G.rej]
 
 FOffer(e) ==
-  LET g0 == IF G.retry THEN G ELSE [G EXCEPT !.must = {}, !.usedb = {}]
+  LET g0 == IF G.retry /\ e.s = G.cur THEN G ELSE [G EXCEPT !.must = {}, !.usedb = {}]
       g1 == [g0 EXCEPT !.applied = {}, !.verified = FALSE, !.cur = e.s, !.retry = FALSE]
       g2 == CASE e.v = "reject"        -> [g1 EXCEPT !.rej.snap = @ \cup {e.s}]
               [] e.v = "reject_format" -> [g1 EXCEPT !.rej.fmt = @ \cup {e.s.f}]
@@ -302,7 +305,9 @@ FEnd(e) ==
 StepF(e) ==
   /\ S' = S /\ drift' = drift
   /\ CASE e.ev = "Provider" ->
-            /\ G' = Settle(IF e.ans = "fail" THEN [G EXCEPT !.rej.snap = @ \cup {e.s}] ELSE G)
+            \* a provider failure ends the attempt (also a retried one: the queue is closed)
+            /\ G' = Settle(IF e.ans = "ok" THEN G
+                           ELSE [G EXCEPT !.rej.snap = IF e.ans = "fail" THEN @ \cup {e.s} ELSE @, !.retry = FALSE])
             /\ UNCHANGED viol
        [] e.ev = "Offer" -> FOffer(e)
        [] e.ev = "Apply" -> FApply(e)
